@@ -417,6 +417,9 @@ def finish_check(prop, tier, seed, runs, t0, rule, min_events, assumptions, extr
         for r, why in inconclusive:
             print("inconclusive: %s: %s" % (r.describe(), why), file=sys.stderr)
         return 2
+    if counters.get("rounds_aborted_no_progress", 0):
+        print("inconclusive: %d round(s) were aborted because a thread made no progress for an absurdly long streak, and no oracle fired" % counters["rounds_aborted_no_progress"], file=sys.stderr)
+        return 2
     if missing:
         print("inconclusive: the runs never observed the critical events %s (counters %s)" % (missing, {k: counters.get(k, 0) for k in missing}), file=sys.stderr)
         return 2
